@@ -27,7 +27,8 @@ def last_case(trace_path):
 
 
 def run_cases(exe, mkargs, lo, hi, trace_path, case_index, timeout=600,
-              max_crashes=40, env=None, resume=None):
+              max_crashes=40, env=None, resume=None,
+              wall_timeout_is_hang=False):
     """Run driver cases lo..hi-1 appending to trace_path.  mkargs(a, b) gives
     the argv tail for the half-open range; case_index(case_id) recovers the
     integer index of a case id.  On a crash (sanitizer report, signal) the
@@ -56,6 +57,15 @@ def run_cases(exe, mkargs, lo, hi, trace_path, case_index, timeout=600,
             if os.path.exists(tp):
                 os.unlink(tp)
             break
+        if rc == -9 and not wall_timeout_is_hang:
+            # the whole driver process exceeded its generous wall-clock
+            # limit: that says something about the machine (overload), not
+            # about libvna.  Hangs are detected inside the drivers by a
+            # CPU-time watchdog (vt_watchdog_start).
+            raise vlib.MachineryError(
+                "driver %s did not finish %s within %d s wall clock "
+                "(overloaded machine?); not a verdict" %
+                (os.path.basename(exe), mkargs(a, hi), timeout))
         cid = last_case(tp)
         nxt = None
         if resume is not None and os.path.exists(tp):
